@@ -121,6 +121,29 @@ def bounds_refusal(rep):
 def loops_lm(fn):
     """[(el var, m var, outer range text, inner range text, inner body)]"""
     out = []
+    # one loop over a precomputed list of (l, m) pairs built by a double comprehension
+    for n in ast.walk(fn):
+        if isinstance(n, ast.For) and isinstance(n.target, ast.Tuple) \
+                and len(n.target.elts) == 2:
+            it = n.iter
+            if isinstance(it, ast.Name):
+                defs = [a for a in ast.walk(fn) if isinstance(a, ast.Assign)
+                        and unparse(a.targets[0]) == it.id]
+                it = defs[0].value if len(defs) == 1 else it
+            if isinstance(it, (ast.ListComp, ast.GeneratorExp)) and len(it.generators) == 2 \
+                    and isinstance(it.elt, ast.Tuple) and len(it.elt.elts) == 2 \
+                    and not it.generators[0].ifs and not it.generators[1].ifs:
+                g0, g1 = it.generators
+                if [unparse(e) for e in it.elt.elts] == [unparse(g0.target), unparse(g1.target)]:
+                    import re as _re
+
+                    def ren(txt):
+                        txt = _re.sub(rf"\b{_re.escape(unparse(g0.target))}\b",
+                                      unparse(n.target.elts[0]), txt)
+                        return _re.sub(rf"\b{_re.escape(unparse(g1.target))}\b",
+                                       unparse(n.target.elts[1]), txt)
+                    out.append((unparse(n.target.elts[0]), unparse(n.target.elts[1]),
+                                ren(unparse(g0.iter)), ren(unparse(g1.iter)), n.body))
     for n in ast.walk(fn):
         if isinstance(n, ast.For) and isinstance(n.iter, ast.Call) \
                 and unparse(n.iter.func) == "range":
